@@ -25,6 +25,8 @@ type C06Op struct {
 
 type C06Proc struct {
 	Ops []C06Op `json:"ops"`
+	// TmpOtherFS: the process runs with $TMPDIR on another file system than the project
+	TmpOtherFS bool `json:"tmp_other_fs,omitempty"`
 }
 
 type C06Scenario struct {
@@ -85,6 +87,7 @@ func (C06) Generate(t *tape.Tape, tier string) interface{} {
 	if t.Bool(1, 2) {
 		first.Ops = append(first.Ops, C06Op{Op: "unused", Dir: order[0]}) // again after the other directory
 	}
+	first.TmpOtherFS = t.Bool(1, 4)
 	sc.Procs = append(sc.Procs, first)
 	if t.Bool(2, 3) {
 		var second C06Proc // after a restart
@@ -162,7 +165,10 @@ func (C06) Run(ctx *sim.RunCtx, data json.RawMessage) (*sim.Outcome, error) {
 	var hist []string
 	secondRunOnMulti := false
 	for pi, p := range sc.Procs {
-		proc := &sim.Proc{Schedule: sim.Canonical(), Cwd: ctx.Dir}
+		proc := &sim.Proc{Schedule: sim.Canonical(), Cwd: ctx.Dir, TmpOtherFS: p.TmpOtherFS}
+		if p.TmpOtherFS {
+			out.Faults["tmpdir-on-other-fs"]++
+		}
 		type meta struct {
 			kind string
 			dir  int
